@@ -86,7 +86,7 @@ def run_c16(ctx):
     n = ctx.n(50, 2000)
     fps = set()
     n_eval = 0
-    stages = ["fresh", "initialized", "paused", "finished", "backward"]
+    stages = ["fresh", "initialized", "paused", "finished", "backward", "edited"]
     drv = Driver()
     for i in range(n):
         rng, spec, params = case_of(ctx.seed + 5, i)
@@ -107,6 +107,12 @@ def run_c16(ctx):
                     real_simulate(project, dict(p, maxTime=rng.randint(0, 4)))
                 elif stage == "finished":
                     real_simulate(project, p)
+                elif stage == "edited":     # finished, then absence steps edited in (incl. step 0) and out
+                    real_simulate(project, p)
+                    project.insert_absence_time_list([0, rng.randint(1, 4)])
+                    if rng.random() < 0.4:
+                        project.remove_absence_time_list()
+                        project.insert_absence_time_list([rng.randint(0, 2)])
                 elif stage == "backward":
                     real_simulate(project, p, backward=True, considering_due_time_of_tail_tasks=rng.random() < 0.5,
                                   reverse_log_information=rng.random() < 0.5)
@@ -161,8 +167,8 @@ def run_c16(ctx):
     drv.close()
     static_inspection(ctx)
     finish(ctx, n_eval, fps, "random models (plain BaseTask/BaseComponent classes, equal-but-not-identical ID strings, non-default value for every "
-                           "simulation-relevant constructor parameter, 30% with a BaseSubProjectTask) saved at five stages (never simulated, "
-                           "initialised, paused at a random step, finished forward, finished backward): write, read into a new project, write again "
+                           "simulation-relevant constructor parameter, 30% with a BaseSubProjectTask) saved at six stages (never simulated, "
+                           "initialised, paused at a random step, finished forward, finished backward, finished and then edited by insert/remove_absence_time_list incl. step 0): write, read into a new project, write again "
                            "(value-for-value equality of the JSON), reference identity inside the restored project, equality of the extracted model "
                            "and state, re-simulation of original and copy; plus a static comparison of constructor parameters with exported keys")
 
